@@ -135,7 +135,7 @@ func (c *Ctx) ruleSeqOnlyAccessor(rule string) {
 		return
 	}
 	allowed := map[string]string{
-		"(*internal/pkg/table.AsPathCondition).Evaluate": "policy condition on the AS_PATH sequence",
+		"(*internal/pkg/table.AsPathCondition).Evaluate":  "policy condition on the AS_PATH sequence",
 		"(*internal/pkg/table.AsPathPrependAction).Apply": "prepend action reads the leftmost AS",
 	}
 	for _, e := range c.P.Callers(fn) {
@@ -161,10 +161,10 @@ func (c *Ctx) ruleHoldTimerSource(rule string) {
 		return
 	}
 	allowed := map[string]bool{
-		"(*pkg/server.fsm).stateChange":          true,
-		"pkg/server.buildopen":                   true,
-		"pkg/server.newNeighborFromAPIStruct":    true,
-		"pkg/server.newPeerGroupFromAPIStruct":   true,
+		"(*pkg/server.fsm).stateChange":        true,
+		"pkg/server.buildopen":                 true,
+		"pkg/server.newNeighborFromAPIStruct":  true,
+		"pkg/server.newPeerGroupFromAPIStruct": true,
 	}
 	for _, fn := range c.P.FuncsIn("pkg/server") {
 		n := 0
@@ -1445,10 +1445,10 @@ func sortFuncs(fns []*ssa.Function) {
 // errorsDiscardedReviewed: the discarded error results that were read and found harmless.
 var errorsDiscardedReviewed = map[string]string{
 	"(*pkg/packet/bgp.FlowSpecNLRI).decodeFromBytes|NewIPAddrPrefix":         "called with the constant, valid prefix 0.0.0.0/0 to obtain a placeholder",
-	"(*pkg/packet/bgp.PathAttributeAsPath).DecodeFromBytes|Serialize":       "builds the Data field of an error that is already being returned",
-	"(*pkg/packet/bgp.PathAttributeMpReachNLRI).DecodeFromBytes|Serialize":  "builds the Data field of an error that is already being returned",
+	"(*pkg/packet/bgp.PathAttributeAsPath).DecodeFromBytes|Serialize":        "builds the Data field of an error that is already being returned",
+	"(*pkg/packet/bgp.PathAttributeMpReachNLRI).DecodeFromBytes|Serialize":   "builds the Data field of an error that is already being returned",
 	"(*pkg/packet/bgp.PathAttributeMpUnreachNLRI).DecodeFromBytes|Serialize": "builds the Data field of an error that is already being returned",
 	"(*pkg/packet/bgp.SRPolicyNLRI).Len|Serialize":                           "Len() reports the size of what Serialize would emit; an error means size 0",
-	"(*pkg/zebra.lookupBody).decodeFromBytes|addressByteLength":               "the family is one of the two constants the function accepts",
+	"(*pkg/zebra.lookupBody).decodeFromBytes|addressByteLength":              "the family is one of the two constants the function accepts",
 	"pkg/packet/bgp.GetRouteDistinguisher|NewRouteDistinguisherIPAddressAS":  "the address is built from exactly four octets and is therefore always IPv4",
 }
